@@ -1,4 +1,6 @@
 import Martian.Props.C02.Facts
+import Martian.Props.C02.SemFacts
+import Martian.Props.C02.ErrorValues
 import Martian.Lemmas.Proxy
 import Martian.Lemmas.ProxyTrace
 import Martian.Lemmas.ProxyState
@@ -55,7 +57,7 @@ theorem no_resmod_after_request_hijack (k : Nat) (s' : St) (it : Item)
 (`base + k`): every `reqmod`/`resmod`/`link` event of exchange `k` carries context id `base + k`. -/
 theorem same_context_for_request_and_response :
     ∀ e ∈ runConn sd base items,
-      (∀ k c h s t, e = .reqmod k c h s t → c = base + k) ∧ (∀ k c st, e = .resmod k c st → c = base + k) := by
+      (∀ k c h s t tid, e = .reqmod k c h s t tid → c = base + k) ∧ (∀ k c st, e = .resmod k c st → c = base + k) := by
   have key : ∀ e ∈ runConn sd base items, ctxOK base e = true := by
     refine forall_run (fun e => ctxOK base e = true) sd base ?_ ?_ ?_ {} 0 [] items
     · intro s i it e he
@@ -65,7 +67,7 @@ theorem same_context_for_request_and_response :
   intro e he
   have := key e he
   constructor
-  · intro k c h s t heq; subst heq; simpa [ctxOK] using this
+  · intro k c h s t tid heq; subst heq; simpa [ctxOK] using this
   · intro k c st heq; subst heq; simpa [ctxOK] using this
 
 /-- Context ids are unique per exchange. -/
@@ -78,8 +80,10 @@ theorem ctx_table_empty_at_quiescence (c : Nat) :
   have := unlinks_count sd base {} 0 [] items c
   simpa [runConn] using this
 
-/-- A request-modifier error never aborts the exchange: it is surfaced as a Warning on the request and
-(unless a modifier hijacks) the exchange still gets its response-modifier call and its response. -/
+/-- A request-modifier error never aborts the exchange, **whatever value the error is** (`rqErr`
+holds of `.err v` and `.errSkip v` for every `v : ErrVal`, the connection-level values `io.EOF`,
+`io.ErrClosedPipe` and timeouts included): it is surfaced as a Warning on the request and (unless a
+modifier hijacks) the exchange still gets its response-modifier call and its response. -/
 theorem request_modifier_error_never_aborts (k : Nat) (s' : St) (it : Item)
     (h : at? sd base {} 0 items k = some (s', it)) (he : rqErr it.rq = true) :
     countP (isWarnReq k) (runConn sd base items) = 1 ∧
@@ -90,14 +94,15 @@ theorem request_modifier_error_never_aborts (k : Nat) (s' : St) (it : Item)
   simp only [own_warnReq, own_resmod, own_write, he, if_true]
   cases hq : it.rq <;> simp [rqErr, hq] at he <;> cases hs : it.rs <;> simp [Item.hij, hq, hs]
 
-/-- A response-modifier error never aborts the exchange: Warning on the response, response written. -/
-theorem response_modifier_error_never_aborts (k : Nat) (s' : St) (it : Item)
-    (h : at? sd base {} 0 items k = some (s', it)) (hq : it.rq ≠ .hijack) (hs : it.rs = .err) :
+/-- A response-modifier error never aborts the exchange, whatever value the error is: Warning on the
+response, response written. -/
+theorem response_modifier_error_never_aborts (k : Nat) (s' : St) (it : Item) (v : ErrVal)
+    (h : at? sd base {} 0 items k = some (s', it)) (hq : it.rq ≠ .hijack) (hs : it.rs = .err v) :
     countP (isWarnRes k) (runConn sd base items) = 1 ∧ countP (isWrite k) (runConn sd base items) = 1 := by
   unfold runConn
   rw [count_run local_warnRes, count_run local_write, h]
   simp only [own_warnRes, own_write]
-  cases hq' : it.rq <;> simp [Item.hij, hq', hs] at * 
+  cases hq' : it.rq <;> simp [Item.hij, hq', hs, rsErr] at * 
 
 /-- Skip-round-trip: zero upstream contact, and a 200 that still passes through the response modifier. -/
 theorem skip_roundtrip_zero_upstream_and_200_through_resmod (k : Nat) (s' : St)
@@ -119,11 +124,11 @@ theorem hijack_stops_io : quiet (runConn sd base items) = true :=
   quiet_run sd base {} 0 [] items
 
 /-! Non-vacuity: a concrete connection in which the hypotheses above are met. -/
-example : at? false 0 {} 0 [.x false .pass .pass (.ok 200 false), .x false .errSkip .err (.ok 200 false),
-    .x false .hijack .pass .fail] 1 = some ({}, .x false .errSkip .err (.ok 200 false)) := by decide
-example : countP (isRead 2) (runConn false 0 [.x false .pass .pass (.ok 200 false), .x false .errSkip .err (.ok 200 false),
+example : at? false 0 {} 0 [.x false .pass .pass (.ok 200 false), .x false (.errSkip .eof) (.err .timeout) (.ok 200 false),
+    .x false .hijack .pass .fail] 1 = some ({}, .x false (.errSkip .eof) (.err .timeout) (.ok 200 false)) := by decide
+example : countP (isRead 2) (runConn false 0 [.x false .pass .pass (.ok 200 false), .x false (.errSkip .eof) (.err .timeout) (.ok 200 false),
     .x false .hijack .pass .fail]) = 1 := by decide
-example : countP (isResmod 2) (runConn false 0 [.x false .pass .pass (.ok 200 false), .x false .errSkip .err (.ok 200 false),
+example : countP (isResmod 2) (runConn false 0 [.x false .pass .pass (.ok 200 false), .x false (.errSkip .eof) (.err .timeout) (.ok 200 false),
     .x false .hijack .pass .fail]) = 0 := by decide
 
 end Martian.Props.C02
